@@ -421,11 +421,12 @@ func main() {
 				sop := fmt.Sprintf("submit id=%d from=%d nonce=%d v=%d kind=%s", id, a, n, id, kind)
 				res := do(sop)
 				r.Count("submit." + strings.Fields(res)[0])
-				if strings.HasPrefix(res, "full") && lastSnap != "" {
+				if strings.HasPrefix(res, "full") {
 					// "never drops an executable transaction while below its capacity": a refusal for lack of
-					// room is only right when a queue is at its limit (the snapshot taken just before)
+					// room is only right when a queue is at its limit (a refusal changes nothing: the snapshot
+					// taken now is the pool the transaction was refused by)
 					np, nw := 0, 0
-					for _, fld := range strings.Fields(lastSnap) {
+					for _, fld := range strings.Fields(do("snap")) {
 						if strings.HasPrefix(fld, "P=") && len(fld) > 2 {
 							np = len(strings.Split(fld[2:], ","))
 						}
